@@ -432,6 +432,24 @@ pub fn c19(rep: &mut Report, n: usize, seed: u64, thorough: bool) {
             }
             rep.count("reordered-runs");
         }
+        // (1b) history independence on views of ONE buffer (sub-slices and find_from share addresses):
+        // every answer of the long-lived Regex equals the answer of a freshly compiled one
+        for h in hays.iter().take(3) {
+            let s = ast::to_string(h);
+            let fs = c.flags.to_string();
+            for (round, &k) in boundaries(&s).iter().enumerate() {
+                let views: [(&str, usize); 2] = if round % 2 == 0 { [(&s[k..], 0), (&s[..], k)] } else { [(&s[..], k), (&s[k..], 0)] };
+                for (text, start) in views {
+                    let got = run_exec(&c.opt, Exec::Bt, text, start, 64).text;
+                    let Ok(Ok(fresh)) = guarded(|| compile(&c.pat, &fs, false)) else { continue };
+                    let want = run_exec(&fresh, Exec::Bt, text, start, 64).text;
+                    rep.count("view-queries");
+                    if got != want {
+                        rep.violation("impl-vs-impl:C19", format!("a Regex that answered other queries before returns [{}], a freshly compiled one [{}]", got, want), format!("/{}/{} {:?} from {}", c.pat, fs, text, start));
+                    }
+                }
+            }
+        }
         // (2) many threads sharing one &Regex (and one clone), random assignment of queries to threads
         let assignment: Vec<usize> = (0..queries.len() * 4).map(|_| rng.below(threads)).collect();
         let re = &c.opt;
